@@ -118,7 +118,7 @@ impl Property for C04 {
 
     fn generate(&self, tape: &mut Tape, tier: Tier, _known: &Known) -> Value {
         let fmt = pick_fmt(tape);
-        let game = *tape.pick(games_for(fmt));
+        let game = if fmt == Fmt::Ecl && tape.chance(1, 3) { *tape.pick(MODERN_ECL_GAMES) } else { *tape.pick(games_for(fmt)) };
         let nmut = *tape.pick(&[1usize, 1, 2, 0, 3, 1, 4]);
         if tape.chance(1, 5) {
             // mapfile case
